@@ -286,6 +286,9 @@ def synthetic_classes() -> list[type]:
         mk("v-lit", {"l": Literal["fast", "none"], "lt": Literal["fast", "none"] | tuple[str, ...], "ol": Literal["static", "dynamic"] | None},
            {"ol": None}),
         mk("v-req-first", {"req": int, "opt_a": str, "opt_b": int | None}, {"opt_a": "d", "opt_b": None}),
+        mk("v-factory", {"ti": tuple[int, ...], "ts": tuple[str, ...], "n": int}, {"ti": dataclasses.field(default_factory=lambda: (1, 2)), "ts": dataclasses.field(default_factory=tuple), "n": 5}),
+        mk("v-int-vs-bool", {"i": int, "b": bool, "io": int | None, "bo": bool | None, "ib": int | bool}, {"i": 1, "b": True, "io": 0, "bo": False, "ib": 0}),
+        mk("v-num", {"f": float, "fi": float | int, "tfi": tuple[int | float, ...]}, {"f": 0.0, "fi": 0, "tfi": ()}),
     ]
     return out
 
